@@ -325,7 +325,8 @@ def config_services(ctx, rows, mode_val):
     if 23 in rows:
         hn = rows[23][1]
         for err in (0, 0x100):
-            res = _run_handler(m, hn, _frame_inputs(23, extra={'call:COLssStore': err, 'lss->CfgBaudrate': 1000, 'lss->CfgNodeId': 9}))
+            res = _run_handler(m, hn, _frame_inputs(23, extra={'call:COLssStore': err, 'lss->CfgBaudrate': 1000, 'lss->CfgNodeId': 9,
+                                                               'lss->Flags': 0}))
             site = '%s store result %d' % (hn, err)
             ok = len(res) == 1
             if ok:
@@ -333,6 +334,12 @@ def config_services(ctx, rows, mode_val):
                 args = [c[2] for c in t.calls() if c[1] == 'COLssStore']
                 ok = ret == 1 and st.get('frm->Identifier') == TX and st.get('frm->Data[1]') == (0 if err == 0 else 2) \
                     and args == [[1000, 9]]
+                # the "configuration is stored" flag (it lets an unconfigured slave answer "identify non-configured remote
+                # slave") is raised iff the store succeeded
+                fl = st.get('lss->Flags') or 0
+                if ok and bool(fl) != (err == 0):
+                    ok = False
+                    res = [(ret, 'stored-flag %s after a %s store' % (hex(fl), 'successful' if err == 0 else 'FAILED'))]
             if ok:
                 ctx.ob(P, 'RF1-lss-config', hn, site, 'error code %d' % (0 if err == 0 else 2))
             else:
